@@ -32,6 +32,8 @@ type Hooks struct {
 	AfterClose  func(r *Run)
 	OnReopened  func(r *Run, op *Op)
 	OnOp        func(r *Run, op *Op) bool // property-specific op kinds; true = handled
+	BeforeHelper func(r *Run, op *Op, hc *HelperCall)
+	AfterTool   func(r *Run, tool string)
 	Strict      []string                  // call-name prefixes whose unexpected errors are violations of this property
 }
 
@@ -623,6 +625,12 @@ func (r *Run) reopen(op *Op) {
 		if err != nil {
 			r.unexpected("offline-"+tool, err)
 			return
+		}
+		if r.H.AfterTool != nil {
+			r.H.AfterTool(r, tool)
+			if r.stopped() {
+				return
+			}
 		}
 	}
 	if err := r.open(*op.Open); err != nil {
